@@ -123,6 +123,10 @@ class QuicConnectionProtocol(asyncio.DatagramProtocol):
         for data, addr in self._quic.datagrams_to_send(now=self._loop.time()):
             self._transport.sendto(data, addr)
 
+        # process the events raised while building packets, e.g. a server must
+        # route a connection ID as soon as it has been advertised to the peer
+        self._process_events()
+
         # re-arm timer
         timer_at = self._quic.get_timer()
         if self._timer is not None and self._timer_at != timer_at:
